@@ -311,14 +311,21 @@ Theorem gff_file_texts_load_is_table_of_concatenation : forall N texts files,
 Proof. exact load_file_texts_table. Qed.
 
 (** ---------- get_feature_children / get_feature_parent on the gff table ---------- *)
-Theorem children_are_stored_records_naming_the_parent : forall q bt db r,
-  In r (gff_children q bt db) ->
+Theorem children_are_stored_records_naming_the_parent : forall strict q bt db r,
+  In r (gff_children strict q bt db) ->
   In r db /\ exists p, row_parent r = Some p /\ like (wrap_pct q) p = true.
 Proof. exact children_sound. Qed.
 
 Theorem every_record_naming_the_parent_is_a_child : forall q db r a b,
-  In r db -> row_parent r = Some (a ++ q ++ b) -> ~ In 37 q -> In r (gff_children q None db).
+  In r db -> row_parent r = Some (a ++ q ++ b) -> ~ In 37 q -> In r (gff_children false q None db).
 Proof. exact children_complete. Qed.
+
+(** under the strict rule (notes/proposed_fixes/C17-5.diff) children(q) IS the Parent= relation *)
+Theorem strict_children_are_the_parent_relation : forall q db r,
+  has_pct q = false ->
+  (In r (gff_children true q None db) <->
+   In r db /\ exists p, row_parent r = Some p /\ In q (parent_names p)).
+Proof. exact children_strict_iff. Qed.
 
 Theorem parents_are_stored_records_named_in_the_parent_list : forall cands db x,
   In x (parents_of cands db) ->
